@@ -62,18 +62,48 @@ def instrument(cleaner):
     return log
 
 
-def _observed(log, n_enabled, n_lines):
-    """Order of the first application block; every later block (one per line) must repeat it
-    (the parser list is built once per clean_content call)."""
-    if n_enabled == 0 or not log:
-        return []
-    first = [n for n, _ in log[:n_enabled]]
-    for i in range(0, len(log), n_enabled):
-        if [n for n, _ in log[i:i + n_enabled]] != first:
-            raise RuntimeError("obfuscator call order changed between lines: %r" % (log,))
-    if len(log) != n_enabled * n_lines:
-        raise RuntimeError("expected %d applications, logged %d" % (n_enabled * n_lines, len(log)))
+def _blocks(log):
+    """Splits the application log into blocks, one per cleaned line: a block ends when a name repeats."""
+    blocks, cur, seen = [], [], set()
+    for n, ch in log:
+        if n in seen:
+            blocks.append(cur)
+            cur, seen = [], set()
+        cur.append((n, ch))
+        seen.add(n)
+    if cur:
+        blocks.append(cur)
+    return blocks
+
+
+def _observed(log):
+    """Order in which the obfuscators were applied: names by first application.  Every block that applies
+    all of them must show the same order (the parser list is built once per clean_content call); nothing
+    else about the call pattern is assumed, so a refactoring that skips calls for empty lines is fine."""
+    first = []
+    for n, _ in log:
+        if n not in first:
+            first.append(n)
     return first
+
+
+def _max_changed(log):
+    return max([sum(1 for _, ch in b if ch) for b in _blocks(log)] or [0])
+
+
+def _steps(c, case, noobf):
+    """The cleaning history of one case on ONE cleaner: every content of case["pre"] first, then
+    case["lines"] (as a single string when case["as_string"]).  Returns the single output for a plain
+    case, else the list of all outputs in order."""
+    width = bool(case.get("width"))
+    outs = []
+    for pre in (case.get("pre") or []):
+        outs.append(c.clean_content(list(pre), no_obfuscate=noobf, width=width))
+    if case.get("as_string"):
+        outs.append([c.clean_content(case["lines"][0], no_obfuscate=noobf, width=width)])
+    else:
+        outs.append(c.clean_content(list(case["lines"]), no_obfuscate=noobf, width=width))
+    return outs[0] if len(outs) == 1 else outs
 
 
 def run_forced(case, order):
@@ -94,32 +124,22 @@ def run_forced(case, order):
     if set_order != list(order):
         raise RuntimeError("forced hashes did not produce the requested set order: %r != %r" % (set_order, order))
     log = instrument(c)
-    lines = list(case["lines"])
-    out = c.clean_content(lines, no_obfuscate=noobf, width=bool(case.get("width")))
-    obs = _observed(log, len(order), len(lines))
-    return {"forced": list(order), "set_order": set_order, "observed": obs, "out": out,
+    out = _steps(c, case, noobf)
+    return {"forced": list(order), "set_order": set_order, "observed": _observed(log), "out": out,
             "calls": len(log), "changed": sorted(set(n for n, ch in log if ch)),
-            "max_changed_on_one_line": _max_changed(log, len(order))}
-
-
-def _max_changed(log, n):
-    best = 0
-    if n:
-        for i in range(0, len(log), n):
-            best = max(best, sum(1 for _, ch in log[i:i + n] if ch))
-    return best
+            "max_changed_on_one_line": _max_changed(log)}
 
 
 def run_plain(case):
     """Fresh cleaner with its own plain str keys: the order is whatever this interpreter's hash
     seed gives.  Used inside the child interpreters."""
+    if case.get("kind") == "allow":
+        return run_allow(case)
     c = build_cleaner(case)
     no = list(case.get("no_obfuscate") or [])
-    n_enabled = len([k for k, v in c.obfuscate.items() if v and k not in no])
     log = instrument(c)
-    lines = list(case["lines"])
-    out = c.clean_content(lines, no_obfuscate=no, width=bool(case.get("width")))
-    return {"observed": _observed(log, n_enabled, len(lines)), "out": out, "calls": len(log)}
+    out = _steps(c, case, no)
+    return {"observed": _observed(log), "out": out, "calls": len(log)}
 
 
 def run_children(cases, seeds, repo=None, parallel=CHILD_PARALLEL):
@@ -227,33 +247,40 @@ def make_set_type(sched):
     return PermSet
 
 
-def run_inside(case, prefix=()):
-    """Fresh cleaner with plain keys (the obfuscator order is whatever the code and this interpreter give),
-    while the name `set` in insights.cleaner.{hostname, ip, keyword, mac, ...} is the schedule-driven
-    stand-in.  Returns {"out", "trace": [(choice, options)], "too_big"}."""
-    import importlib
-    sched = SetSchedule(prefix)
-    stand_in = make_set_type(sched)
-    mods = [importlib.import_module("insights.cleaner." + m) for m in INSIDE_MODULES]
-    for m in mods:
-        if "set" in m.__dict__:
-            raise RuntimeError("%s already defines a global named set" % m.__name__)
-    try:
-        for m in mods:
+class set_stand_in(object):
+    """Context manager: the name `set` in the given modules is the schedule-driven stand-in."""
+
+    def __init__(self, module_names, prefix=()):
+        import importlib
+        self.sched = SetSchedule(prefix)
+        self.mods = [importlib.import_module(m) for m in module_names]
+
+    def __enter__(self):
+        stand_in = make_set_type(self.sched)
+        for m in self.mods:
+            if "set" in m.__dict__:
+                raise RuntimeError("%s already defines a global named set" % m.__name__)
+        for m in self.mods:
             m.set = stand_in
-        c = build_cleaner(case)
-        out = c.clean_content(list(case["lines"]), no_obfuscate=list(case.get("no_obfuscate") or []),
-                              width=bool(case.get("width")))
-    finally:
-        for m in mods:
+        return self.sched
+
+    def __exit__(self, *a):
+        for m in self.mods:
             m.__dict__.pop("set", None)
+        return False
+
+
+def run_scheduled(fn, module_names, prefix=()):
+    """fn() executed with the stand-in in place -> {"out": fn(), "trace": [[choice, options]], "too_big"}."""
+    with set_stand_in(module_names, prefix) as sched:
+        out = fn()
     if len(sched.trace) < len(sched.prefix):
         raise RuntimeError("set schedule prefix %r longer than the execution's %d choice points" % (sched.prefix, len(sched.trace)))
     return {"out": out, "trace": [list(t) for t in sched.trace], "too_big": sched.too_big}
 
 
-def explore_inside(case, cap=3000):
-    """Stateless depth-first exploration of every set schedule of one case.
+def explore_scheduled(fn, module_names, cap=3000):
+    """Stateless depth-first exploration of every set schedule of fn.
     Returns (runs = [{"choices", "out", "trace"}], complete: bool)."""
     runs = []
     stack = [[]]
@@ -263,7 +290,7 @@ def explore_inside(case, cap=3000):
             complete = False
             break
         prefix = stack.pop()
-        r = run_inside(case, prefix)
+        r = run_scheduled(fn, module_names, prefix)
         choices = [c for c, _ in r["trace"]]
         if r["too_big"]:
             complete = False
@@ -274,65 +301,80 @@ def explore_inside(case, cap=3000):
     return runs, complete
 
 
-# ---- part B scaffolding ------------------------------------------------------------------------
-
-_SPECS = None
+CLEANER_MODULES = tuple("insights.cleaner." + m for m in INSIDE_MODULES)
 
 
-def specs():
-    """One real SpecSet with a plain and a filterable registry point, a simple_file implementation
-    of each, and a real function datasource returning a DatasourceProvider. Created once per
-    process (workers are forked; nothing else uses these names)."""
-    global _SPECS
-    if _SPECS is None:
-        from insights.core.context import HostContext
-        from insights.core.plugins import datasource
-        from insights.core.spec_factory import SpecSet, RegistryPoint, simple_file, DatasourceProvider
-
-        class VerifC10Specs(SpecSet):
-            plain = RegistryPoint()
-            filt = RegistryPoint(filterable=True)
-
-        class VerifC10Impl(VerifC10Specs):
-            plain = simple_file("c10/plain.txt", context=HostContext)
-            filt = simple_file("c10/filt.txt", context=HostContext)
-
-        @datasource(HostContext)
-        def verif_c10_lines(broker):
-            return DatasourceProvider(list(broker["verif_c10_content"]), "c10/ds.txt", ds=verif_c10_lines,
-                                      ctx=broker[HostContext], cleaner=broker.get("cleaner"))
-
-        _SPECS = {"registry": VerifC10Specs, "impl": VerifC10Impl, "ds": verif_c10_lines}
-    return _SPECS
+def _inside_fn(case):
+    def fn():
+        c = build_cleaner(case)
+        return _steps(c, case, list(case.get("no_obfuscate") or []))
+    return fn
 
 
-class filters_set(object):
-    """Context manager: the filterable registry point carries exactly `allow` ({pattern: max}),
-    registered through the real add_filter; tables restored afterwards."""
+def run_inside(case, prefix=()):
+    """Fresh cleaner with plain keys (the obfuscator order is whatever the code and this interpreter give),
+    while the name `set` in insights.cleaner.{hostname, ip, keyword, mac, ...} is the schedule-driven
+    stand-in.  Returns {"out", "trace": [(choice, options)], "too_big"}."""
+    return run_scheduled(_inside_fn(case), CLEANER_MODULES, prefix)
 
-    def __init__(self, allow):
-        self.allow = allow
 
-    def __enter__(self):
-        from insights.core import filters
-        self.filters = filters
-        rp = specs()["registry"].filt
-        self.saved = (dict(filters.FILTERS.get(rp, {})) if rp in filters.FILTERS else None, dict(filters._CACHE))
-        filters.FILTERS.pop(rp, None)
-        filters._CACHE.clear()
-        for k, v in sorted((self.allow or {}).items()):
-            filters.add_filter(rp, k, max_match=v)
-        return self
+def explore_inside(case, cap=3000):
+    return explore_scheduled(_inside_fn(case), CLEANER_MODULES, cap)
 
-    def __exit__(self, *a):
-        filters = self.filters
-        rp = specs()["registry"].filt
-        filters.FILTERS.pop(rp, None)
-        if self.saved[0] is not None:
-            filters.FILTERS[rp] = self.saved[0]
-        filters._CACHE.clear()
-        filters._CACHE.update(self.saved[1])
-        return False
+
+# ---- part B / C scaffolding: real specs, registered through the public API only ----------------
+
+_SPEC_CACHE = {}
+_SPEC_N = [0]
+CMD = '/bin/sh -c "cat $VERIF_C10_FILE"'       # the input file is named by an inherited environment variable
+
+
+def make_specs(allow=None, one_call=True, cache=True):
+    """A fresh real SpecSet: registry points plain / filt (filterable) / cmd / cmdfilt (filterable), one
+    implementation each (simple_file x2, simple_command x2), and a function datasource `ds` returning a
+    DatasourceProvider.  `allow` ({pattern: max_match} or None) is registered on the filterable registry
+    points through the real add_filter - in ONE call (list of patterns, common max) or one call per pattern.
+    Nothing is ever removed from the registries: every distinct filter configuration gets its own components
+    (cached per process), so no private table of insights.core.filters is touched."""
+    key = json.dumps([allow, one_call], sort_keys=True)
+    if cache and key in _SPEC_CACHE:
+        return _SPEC_CACHE[key]
+    from insights.core import filters
+    from insights.core.context import HostContext
+    from insights.core.plugins import datasource
+    from insights.core.spec_factory import SpecSet, RegistryPoint, simple_file, simple_command, DatasourceProvider
+    _SPEC_N[0] += 1
+    n = _SPEC_N[0]
+    meta = type(SpecSet)
+    reg = meta("VerifC10Specs%d" % n, (SpecSet,), {
+        "__module__": __name__, "plain": RegistryPoint(), "filt": RegistryPoint(filterable=True),
+        "cmd": RegistryPoint(), "cmdfilt": RegistryPoint(filterable=True)})
+    impl = meta("VerifC10Impl%d" % n, (reg,), {
+        "__module__": __name__,
+        "plain": simple_file("c10/plain.txt", context=HostContext),
+        "filt": simple_file("c10/filt.txt", context=HostContext),
+        "cmd": simple_command(CMD, context=HostContext, inherit_env=["VERIF_C10_FILE"]),
+        "cmdfilt": simple_command(CMD, context=HostContext, inherit_env=["VERIF_C10_FILE"])})
+
+    def verif_c10_lines(broker):
+        return DatasourceProvider(list(broker["verif_c10_content"]), "c10/ds.txt", ds=verif_c10_lines,
+                                  ctx=broker[HostContext], cleaner=broker.get("cleaner"))
+    verif_c10_lines.__name__ = "verif_c10_lines%d" % n
+    verif_c10_lines = datasource(HostContext)(verif_c10_lines)
+    if allow:
+        for rp in (reg.filt, reg.cmdfilt):
+            if one_call:
+                maxes = sorted(set(allow.values()))
+                if len(maxes) != 1:
+                    raise ValueError("one add_filter call needs one common max_match: %r" % (allow,))
+                filters.add_filter(rp, sorted(allow), max_match=maxes[0])
+            else:
+                for k in sorted(allow):
+                    filters.add_filter(rp, k, max_match=allow[k])
+    sp = {"plain": impl.plain, "filt": impl.filt, "cmd": impl.cmd, "cmdfilt": impl.cmdfilt, "ds": verif_c10_lines}
+    if cache:
+        _SPEC_CACHE[key] = sp
+    return sp
 
 
 def list_files(root):
@@ -341,3 +383,63 @@ def list_files(root):
         for f in fs:
             out.append(os.path.relpath(os.path.join(d, f), root))
     return sorted(out)
+
+
+def attempt_write(p, dst):
+    """p.write(dst) -> ("raised", exception class name) | ("stored", text).  Only the library's own two
+    signals for 'this spec yields nothing' are caught; anything else propagates (harness error)."""
+    from insights.core.exceptions import ContentException, CalledProcessError
+    try:
+        p.write(dst)
+    except (ContentException, CalledProcessError) as ex:
+        stored = None
+        if os.path.exists(dst):
+            with open(dst, newline="") as fh:
+                stored = fh.read()
+        return ("raised", type(ex).__name__, stored)
+    if not os.path.exists(dst):
+        return ("nothing", None, None)
+    with open(dst, newline="") as fh:
+        return ("stored", None, fh.read())
+
+
+def make_provider(sp, kind, indir, lines, cleaner_case):
+    """A fresh broker (HostContext rooted at indir, a fresh Cleaner) and the provider the spec `kind` yields."""
+    from insights.core import dr
+    from insights.core.context import HostContext
+    comp = sp[kind]
+    os.makedirs(os.path.join(indir, "c10"), exist_ok=True)
+    fname = os.path.join(indir, "c10", ("filt" if kind == "filt" else "plain") + ".txt")
+    if kind != "ds":
+        with open(fname, "w", newline="") as fh:
+            fh.write("".join(l + "\n" for l in lines))
+        os.environ["VERIF_C10_FILE"] = fname
+    b = dr.Broker()
+    b[HostContext] = HostContext(root=indir)
+    b["cleaner"] = build_cleaner(cleaner_case)
+    b["verif_c10_content"] = list(lines)
+    p = comp(b)
+    b[comp] = p
+    return b, comp, p
+
+
+def run_allow(case, root=None):
+    """Part C execution: fresh components, `case["allow"]` registered in one add_filter call, the filterable
+    simple_file spec written under a HostContext.  -> {"out": ["raised"|"stored", text], "observed": [], "calls": 0}"""
+    import shutil
+    import tempfile
+    own = root is None
+    if own:
+        root = tempfile.mkdtemp(prefix="verif-%d-c10c-" % os.getpid(), dir="/dev/shm")
+    try:
+        sp = make_specs(case["allow"], one_call=True, cache=False)
+        _, _, p = make_provider(sp, "filt", os.path.join(root, "in"), case["lines"],
+                                {"keywords": ["SECRETKW"], "patterns": ["REDACTME"], "fqdn": "web01.corp.test"})
+        dst = os.path.join(root, "direct", "w.txt")
+        shutil.rmtree(os.path.dirname(dst), ignore_errors=True)
+        r = attempt_write(p, dst)
+        shutil.rmtree(os.path.dirname(dst), ignore_errors=True)
+        return {"out": [r[0], r[2]], "observed": [], "calls": 0}
+    finally:
+        if own:
+            shutil.rmtree(root, ignore_errors=True)
